@@ -21,8 +21,8 @@ const (
 type LockModel struct {
 	w *World
 	// roles resolved structurally
-	storeType  *types.Named // storage.fileStore
-	mtxField   *types.Var   // the sync.RWMutex field of fileStore
+	storeType  *types.Named       // storage.fileStore
+	mtxField   *types.Var         // the sync.RWMutex field of fileStore
 	acquire    map[*Func]lockKind // functions that return with the store lock held (wrappers included)
 	release    map[*Func]lockKind
 	sharedFld  map[*types.Var]string // shared mutable fields -> "Type.field"
